@@ -83,6 +83,9 @@ def _from_shim(e):
     import os
     import traceback
 
+    if getattr(e, "modelled", False):  # an exception the shim raises on purpose, modelling the documented behaviour of a dependency
+        return False
+
     if _SHIM_DIRS is None:
         root = os.path.dirname(os.path.dirname(os.path.abspath(__file__)))
         _SHIM_DIRS = tuple(os.path.join(root, d) + os.sep for d in ("engine", "contracts", "standins", "checks"))
